@@ -211,6 +211,13 @@ def rule_h7(ck, prog, S):
         ck.anchor_lost("C08-H7", "SCPI_Parse / scpiLex_NewLine")
         return
     term = {C.const_of(C.call_args(c)[1]) for c in nl.calls("skipChr")} - {None}
+    if not term:
+        # the recogniser does not go through the one-character skipper: the bytes it consumes, by evaluation over all bytes
+        from sa import interp as I
+        try:
+            term = {b for b in range(256) if I.lex_on(prog, nl.name, bytes([b]))[2] == 1}
+        except I.Stuck:
+            term = set()
     pushes = [c for c in parse.calls("SCPI_ErrorPushEx") if C.const_of(K.arg(c, 1)) == -113]
     if not pushes:
         # the push may live in a static helper of the parser: analyse it where it is
